@@ -101,6 +101,11 @@ func (cons *VgaTextConsole) Fill(x, y, width, height uint32, fg, bg uint8) {
 		rowOffset, colOffset uint32
 	)
 
+	// a console without cells has nothing that could be filled
+	if cons.width == 0 || cons.height == 0 {
+		return
+	}
+
 	// clip rectangle
 	if x == 0 {
 		x = 1
@@ -136,7 +141,7 @@ func (cons *VgaTextConsole) Fill(x, y, width, height uint32, fg, bg uint8) {
 // is responsible for updating (e.g. clear or replace) the contents of
 // the region that was scrolled.
 func (cons *VgaTextConsole) Scroll(dir ScrollDir, lines uint32) {
-	if lines == 0 || lines > cons.height {
+	if lines == 0 || lines > cons.height || cons.width == 0 {
 		return
 	}
 
